@@ -65,7 +65,7 @@ class BulkInSpec(Spec):
 
     def __init__(self, cfg, tier):
         super().__init__(cfg, tier)
-        self.time_budget = 200 if tier == "quick" else 840
+        self.time_budget = 600 if tier == "quick" else 840
         self.mps, self.L = cfg["mps"], cfg["L"]
         self.tags = tags_for(self.L)
         self.last_at = tuple(cfg["bg_last"])
